@@ -698,6 +698,16 @@ def _oracles(plan, kern, sched, sessions, marks, res, limit_hit):
             if S.b0 is None:
                 # failed before the body began
                 if S.outcome == "exc":
+                    # (a writing session on a handle that carries a write queue may store that queue when it begins rather
+                    #  than when it ends: where a carried key can collide, failing before the body is as legitimate as failing after it)
+                    carried0 = dirty_handles.get(S.hkey, ())
+                    if S.kind == "w" and (S.inherited or S.shipped_dirty or carried0 is None
+                                          or any(k_ in committed or k_.startswith("shared") for k_ in carried0)):
+                        if S.queue_left:
+                            dirty_handles[S.hkey] = S.queue_keys
+                        else:
+                            dirty_handles.pop(S.hkey, None)
+                        continue
                     res.violate("S-session-could-not-begin", f"C04|S-begin-failed|{type(S.exc).__name__}",
                                 f"pid {S.pid} #{S.idx} ({S.kind}) failed before its body: {S.exc!r}")
                     return
